@@ -156,7 +156,7 @@ def havoc_value(eng, name, v):
     raise Unsupported(f"cannot havoc loop-modified variable {name} of type {type(v).__name__}")
 
 
-def havoc(eng, st, body, extra_alias=None, also_names=()):
+def havoc(eng, st, body, extra_alias=None, also_names=(), ordinal=None):
     names = assigned_names(body) | set(also_names)
     s = st.fork()
     for n in sorted(names):
@@ -169,6 +169,17 @@ def havoc(eng, st, body, extra_alias=None, also_names=()):
     from . import generators
     if "#out" in s.ghost and generators.body_yields(body):
         s = generators.havoc_out(eng, s)
+    # ghost variables may be updated by call / store hooks inside the body: havoc them (all of them unless the
+    # contract declares which ones a given loop can touch)
+    lg = getattr(eng.cur, "loop_ghost", None) or {}
+    names_g = lg.get(ordinal) if ordinal in lg else [g for g in s.ghost if not g.startswith("#")]
+    if names_g:
+        g2 = dict(s.ghost)
+        for gname in names_g:
+            cur = g2.get(gname)
+            if _is_z3(cur):
+                g2[gname] = eng.fresh("ghost_" + gname, cur.sort())
+        s = St(s.env, s.heap, s.pc, g2)
     al = aliases(body, extra_alias)
     for root, field in store_roots(body):
         for r in al.get(root, {root}):
@@ -244,7 +255,7 @@ def while_loop(eng, s, st, fr, k):
     ordinal, spec = _loop_spec(eng, s, fr)
     pre = f"loop{ordinal}"
     eng.oblige_clauses("invariant-init", pre, st, _inv(eng, spec, st, fr, {}), s)
-    sh = havoc(eng, st, s.body)
+    sh = havoc(eng, st, s.body, ordinal=ordinal)
     for _, f in _norm(_inv(eng, spec, sh, fr, {})):
         sh = sh.assume(eng.S.b(f))
 
@@ -327,18 +338,25 @@ def for_loop(eng, s, st, fr, k):
         if isinstance(it, Ref) and it.kind in ("dict_items", "dict_keys", "dict_values"):
             from . import foreach
             return foreach.dict_loop(eng, s, it, st1, fr, k)
+        enum_start = None
+        if isinstance(it, PyEnum) and isinstance(it.seq, (Opq,)) or (
+                isinstance(it, PyEnum) and isinstance(it.seq, Ref) and it.seq.kind == "iter"):
+            enum_start = it.start
+            it = it.seq
         if isinstance(it, Opq):
             # iteration over an opaque iterable: a ghost sequence of unknown length
             from . import generators
             base = eng.new_base("opq_iter")
             f_len = z3.Function("len", E_V, z3.IntSort())
             n = f_len(it.t)
-            cell = {"seq": z3.Array(base + ".seq", z3.IntSort(), E_V), "n": n, "pos": z3.IntVal(0), "#may_raise": False}
+            _j = z3.Int("it_j")
+            elem_f = z3.Function("iter_elem", E_V, z3.IntSort(), E_V)
+            cell = {"seq": z3.Lambda([_j], elem_f(it.t, _j)), "n": n, "pos": z3.IntVal(0), "#may_raise": False}
             st1 = St(st1.env, {**st1.heap, base: cell}, st1.pc + [n >= 0], st1.ghost)
-            return generators.iter_loop(eng, s, Ref(base, "iter"), st1, fr, k)
+            return generators.iter_loop(eng, s, Ref(base, "iter"), st1, fr, k, enum_start=enum_start)
         if isinstance(it, Ref) and it.kind == "iter":
             from . import generators
-            return generators.iter_loop(eng, s, it, st1, fr, k)
+            return generators.iter_loop(eng, s, it, st1, fr, k, enum_start=enum_start)
         return cut_loop(eng, s, it, st1, fr, k)
     return eng.ev(s.iter, st, fr, with_iter)
 
@@ -366,7 +384,7 @@ def cut_loop(eng, s, it, st, fr, k):
     if root:
         for tn in target_names:
             extra_alias[tn] = {root}
-    sh0 = havoc(eng, st, s.body + s.orelse if False else s.body, extra_alias)
+    sh0 = havoc(eng, st, s.body, extra_alias, also_names=target_names, ordinal=ordinal)
     kk = eng.fresh("k")
     # -- arbitrary iteration
     sh = sh0
